@@ -1025,28 +1025,25 @@ Proof.
   - rewrite firstn_length. lia.
 Qed.
 
-(* C09 strings, end to end for one argument at any position of any call: a readable, NUL-terminated string
-   whose encoding has room is shown as itself (up to ARG_STR_MAX characters) or as its first ARG_STR_MAX-3
-   characters and "..." (longer ones), quoted, raw or with the escapes of print_escaped_char *)
-Theorem str_arg_roundtrip : forall syms fill inp st s p c,
-  m_stop st = false -> is_arg s -> s_fmt s = FStr -> s_size s = 8 -> lenN (m_val st) = VAL_SIZE ->
-  arg_word inp s = Some p -> p < 2 ^ 64 -> p <> 0 -> assoc p (strs inp) = Some c ->
-  nz c -> c <> [255; 255; 255; 255] ->
-  m_total st + need s (AStr c) <= MAX_SIZE ->
+(* the common part: a NUL-terminated source c (the traced program's string, or the "<0x...>" text of an
+   unreadable pointer) is stored and later shown as trunc_str c *)
+Lemma string_core : forall syms fill st s val c,
+  s_fmt s = FStr -> nz c -> c <> [255; 255; 255; 255] ->
+  m_total st + ALIGN (N.min (lenN c) ARG_STR_MAX + 2) 4 <= MAX_SIZE ->
+  let st' := (let '(dst, len) := copy_loop (c ++ [0]) 0 (MAX_SIZE - m_total st) [] 0 in
+              emit fill st val (le_bytes 2 len ++ takeN (MAX_SIZE - m_total st - 2) dst) (ALIGN (len + 2) 4)) in
   exists chunk,
-    m_done (step fill inp false st s) = m_done st ++ chunk /\
-    lenN chunk = need s (AStr c) /\
-    m_total (step fill inp false st s) = m_total st + lenN chunk /\
-    forall later, In (fst (show_one syms s (chunk ++ later))) (accept s (AStr c)) /\
-                  snd (show_one syms s (chunk ++ later)) = lenN chunk.
+    m_done st' = m_done st ++ chunk /\
+    lenN chunk = ALIGN (N.min (lenN c) ARG_STR_MAX + 2) 4 /\
+    m_total st' = m_total st + lenN chunk /\
+    forall later,
+      (fst (show_one syms s (chunk ++ later)) = quote ++ trunc_str c ++ quote \/
+       fst (show_one syms s (chunk ++ later)) = quote ++ flat_map escaped_char (trunc_str c) ++ quote) /\
+      snd (show_one syms s (chunk ++ later)) = lenN chunk.
 Proof.
-  intros syms fill inp st s p c Hst Ha Hf Hs Hval Hw Hp Hp0 Hc Hnz Hff Hroom.
-  unfold need in *.
+  intros syms fill st s val c Hf Hnz Hff Hroom. cbv zeta.
   assert (HA : forall x, x + 2 <= ALIGN (x + 2) 4) by (intro x; pose proof (ALIGN4_ge (x + 2)); lia).
-  assert (H4 : 4 <= ALIGN (N.min (lenN c) ARG_STR_MAX + 2) 4) by (unfold ALIGN; lia).
-  rewrite (step_str fill inp st s p c) by (try assumption; lia).
   set (bound := MAX_SIZE - m_total st) in *.
-  (* the characters that end up in the payload *)
   set (body := trunc_str c).
   assert (Hbody : exists tl,
             copy_loop (c ++ [0]) 0 bound [] 0 = (body ++ tl, N.min (lenN c) ARG_STR_MAX) /\
@@ -1101,7 +1098,329 @@ Proof.
   { rewrite Hlb. unfold ARG_STR_MAX. lia. }
   destruct (str_shown syms s fill body tl' (m_ahead st) later Hf Hnzb Hlt Hffb) as (Hshow & Hadv).
   fold chunk in Hshow, Hadv.
-  split; [|rewrite Hadv, Hlc; reflexivity].
-  unfold accept. rewrite Hf. fold body. rewrite !app_nil_r.
-  destruct Hshow as [-> | ->]; [left|right; left]; reflexivity.
+  split; [exact Hshow|rewrite Hadv, Hlc; reflexivity].
 Qed.
+
+(* C09 strings, end to end for one argument at any position of any call: a readable, NUL-terminated string
+   whose encoding has room is shown as itself (up to ARG_STR_MAX characters) or as its first ARG_STR_MAX-3
+   characters and "..." (longer ones), quoted, raw or with the escapes of print_escaped_char *)
+Theorem str_arg_roundtrip : forall syms fill inp st s p c,
+  m_stop st = false -> is_arg s -> s_fmt s = FStr -> s_size s = 8 -> lenN (m_val st) = VAL_SIZE ->
+  arg_word inp s = Some p -> p < 2 ^ 64 -> p <> 0 -> assoc p (strs inp) = Some c ->
+  nz c -> c <> [255; 255; 255; 255] ->
+  m_total st + need s (AStr c) <= MAX_SIZE ->
+  exists chunk,
+    m_done (step fill inp false st s) = m_done st ++ chunk /\
+    lenN chunk = need s (AStr c) /\
+    m_total (step fill inp false st s) = m_total st + lenN chunk /\
+    forall later, In (fst (show_one syms s (chunk ++ later))) (accept s (AStr c)) /\
+                  snd (show_one syms s (chunk ++ later)) = lenN chunk.
+Proof.
+  intros syms fill inp st s p c Hst Ha Hf Hs Hval Hw Hp Hp0 Hc Hnz Hff Hroom.
+  unfold need in *.
+  assert (H4 : 4 <= ALIGN (N.min (lenN c) ARG_STR_MAX + 2) 4) by (unfold ALIGN; lia).
+  rewrite (step_str fill inp st s p c) by (try assumption; lia).
+  destruct (string_core syms fill st s (get_arg inp s (m_val st)) c Hf Hnz Hff Hroom)
+    as (chunk & Hd & Hl & Ht & Hshow).
+  exists chunk. repeat split; try assumption.
+  - destruct (Hshow later) as ([H | H] & _); unfold accept; rewrite Hf, !app_nil_r, H; [left|right; left]; reflexivity.
+  - apply Hshow.
+Qed.
+
+(* ------------------------------------------------------------------ unreadable and NULL string pointers *)
+Definition plain (c : N) : Prop := c <> 0 /\ c <> 8 /\ c <> 10 /\ c < 128.
+
+Lemma plain_digit : forall d, d < 16 -> plain (digit d).
+Proof. intros d H. unfold plain, digit. destruct (d <? 10) eqn:E; lia. Qed.
+
+Lemma digits_plain : forall fuel n, Forall plain (digits fuel 16 n) /\ (length (digits fuel 16 n) <= fuel)%nat.
+Proof.
+  induction fuel; intro n; [split; [constructor|simpl; lia]|].
+  cbn [digits]. destruct (n <? 16) eqn:E.
+  - split; [constructor; [apply plain_digit; lia|constructor]|simpl; lia].
+  - destruct (IHfuel (n / 16)) as (H1 & H2). split.
+    + apply Forall_app. split; [exact H1|].
+      constructor; [apply plain_digit; apply N.mod_lt; lia|constructor].
+    + rewrite app_length. simpl. lia.
+Qed.
+
+Lemma bad_ptr_text_plain : forall p, Forall plain (bad_ptr_text p) /\ lenN (bad_ptr_text p) <= 20.
+Proof.
+  intro p. unfold bad_ptr_text, hexp, hex, s_lt, s_gt.
+  destruct (digits_plain 16 p) as (H1 & H2).
+  remember (digits 16 16 p) as ds. clear Heqds.
+  split.
+  - apply Forall_app. split; [constructor; [unfold plain; lia|constructor]|].
+    apply Forall_app. split; [|constructor; [unfold plain; lia|constructor]].
+    apply Forall_app. split; [|exact H1].
+    constructor; [unfold plain; lia|]. constructor; [unfold plain; lia|constructor].
+  - unfold lenN. rewrite !app_length. simpl length. lia.
+Qed.
+
+Lemma plain_nz : forall t, Forall plain t -> nz t.
+Proof. intros t H. unfold nz. eapply Forall_impl; [|exact H]. intros a (Ha & _). exact Ha. Qed.
+
+Lemma plain_escape : forall t, Forall plain t -> flat_map escaped_char t = t.
+Proof.
+  induction 1 as [|c r (H0 & H8 & H10 & _) Hr IH]; [reflexivity|].
+  cbn [flat_map]. rewrite IH. unfold escaped_char.
+  destruct (c =? 0) eqn:E0; [lia|]. destruct (c =? 8) eqn:E8; [lia|]. destruct (c =? 10) eqn:E10; [lia|].
+  reflexivity.
+Qed.
+
+(* C09 unreadable pointer: when the region oracle says the pointer of a string argument is not readable,
+   the stored bytes depend on the pointer VALUE only (nothing is loaded through it) and replay shows
+   "<0x...>" with that value *)
+Theorem bad_ptr_arg_roundtrip : forall syms fill inp st s p,
+  m_stop st = false -> is_arg s -> s_fmt s = FStr -> s_size s = 8 -> lenN (m_val st) = VAL_SIZE ->
+  arg_word inp s = Some p -> p < 2 ^ 64 -> p <> 0 -> readable inp p = false ->
+  m_total st + need s (ABad p) <= MAX_SIZE ->
+  exists chunk,
+    m_done (step fill inp false st s) = m_done st ++ chunk /\
+    lenN chunk = need s (ABad p) /\
+    m_total (step fill inp false st s) = m_total st + lenN chunk /\
+    forall later, In (fst (show_one syms s (chunk ++ later))) (accept s (ABad p)) /\
+                  snd (show_one syms s (chunk ++ later)) = lenN chunk.
+Proof.
+  intros syms fill inp st s p Hst Ha Hf Hs Hval Hw Hp Hp0 Hr Hroom.
+  unfold need in Hroom |- *.
+  destruct (bad_ptr_text_plain p) as (Hpl & Hlen).
+  assert (Hnz : nz (bad_ptr_text p)) by (apply plain_nz; exact Hpl).
+  assert (Hff : bad_ptr_text p <> [255; 255; 255; 255]).
+  { intro Hx. rewrite Hx in Hpl. inversion Hpl as [|? ? (_ & _ & _ & H) _]. lia. }
+  assert (Hmin : N.min (lenN (bad_ptr_text p)) ARG_STR_MAX = lenN (bad_ptr_text p)) by (unfold ARG_STR_MAX; lia).
+  assert (H4 : 4 <= ALIGN (lenN (bad_ptr_text p) + 2) 4) by (unfold ALIGN; lia).
+  (* the step *)
+  assert (Hstep : step fill inp false st s =
+    let '(dst, len) := copy_loop (bad_ptr_text p ++ [0]) 0 (MAX_SIZE - m_total st) [] 0 in
+    emit fill st (get_arg inp s (m_val st)) (le_bytes 2 len ++ takeN (MAX_SIZE - m_total st - 2) dst) (ALIGN (len + 2) 4)).
+  { unfold step. rewrite Hst. unfold is_arg in Ha. rewrite Ha, Hf.
+    cbn [Bool.eqb negb andb fmt_eqb is_strfmt].
+    destruct (MAX_SIZE <? m_total st + 4) eqn:E4; [lia|].
+    rewrite (fetch_ptr inp s (m_val st) p Hw Hval Hs Hp).
+    destruct (p =? 0) eqn:E0; [lia|].
+    rewrite Hr, bound_eq by lia. reflexivity. }
+  rewrite Hstep.
+  rewrite <- Hmin in Hroom.
+  destruct (string_core syms fill st s (get_arg inp s (m_val st)) (bad_ptr_text p) Hf Hnz Hff Hroom)
+    as (chunk & Hd & Hl & Ht & Hshow).
+  rewrite Hmin in Hl.
+  exists chunk. repeat split; try assumption.
+  - unfold accept. rewrite Hf, !app_nil_r. left.
+    assert (Htr : trunc_str (bad_ptr_text p) = bad_ptr_text p).
+    { unfold trunc_str. destruct (lenN (bad_ptr_text p) <=? ARG_STR_MAX) eqn:E; [reflexivity|unfold ARG_STR_MAX in *; lia]. }
+    destruct (Hshow later) as ([H | H] & _); rewrite H, Htr; [reflexivity|].
+    rewrite plain_escape by exact Hpl. reflexivity.
+  - apply Hshow.
+Qed.
+
+(* C09 NULL: a NULL string pointer is stored as the 4 characters NULL and shown as "NULL" *)
+Theorem null_arg_roundtrip : forall syms fill inp st s,
+  m_stop st = false -> is_arg s -> s_fmt s = FStr -> s_size s = 8 -> lenN (m_val st) = VAL_SIZE ->
+  arg_word inp s = Some 0 ->
+  m_total st + need s ANull <= MAX_SIZE ->
+  exists chunk,
+    m_done (step fill inp false st s) = m_done st ++ chunk /\
+    lenN chunk = need s ANull /\
+    m_total (step fill inp false st s) = m_total st + lenN chunk /\
+    forall later, In (fst (show_one syms s (chunk ++ later))) (accept s ANull) /\
+                  snd (show_one syms s (chunk ++ later)) = lenN chunk.
+Proof.
+  intros syms fill inp st s Hst Ha Hf Hs Hval Hw Hroom.
+  unfold need in Hroom |- *.
+  assert (Hstep : step fill inp false st s =
+                  emit fill st (get_arg inp s (m_val st)) ([4; 0] ++ null_str) (ALIGN (4 + 2) 4)).
+  { unfold step. rewrite Hst. unfold is_arg in Ha. rewrite Ha, Hf.
+    cbn [Bool.eqb negb andb fmt_eqb is_strfmt].
+    destruct (MAX_SIZE <? m_total st + 4) eqn:E4; [lia|].
+    rewrite (fetch_ptr inp s (m_val st) 0 Hw Hval Hs ltac:(lia)).
+    change (0 =? 0) with true. cbv iota.
+    destruct (MAX_SIZE <? m_total st + ALIGN (4 + 2) 4) eqn:E8; [change (ALIGN (4 + 2) 4) with 8 in E8; lia|].
+    reflexivity. }
+  rewrite Hstep, emit_done, emit_total.
+  change (ALIGN (4 + 2) 4) with 8.
+  set (chunk := fit 8 fill (over ([4; 0] ++ null_str) (m_ahead st))).
+  assert (Hc : exists a b, chunk = [4; 0; 78; 85; 76; 76; a; b]).
+  { unfold chunk, fit, over, takeN, repN, null_str.
+    destruct (m_ahead st) as [|x0 [|x1 [|x2 [|x3 [|x4 [|x5 [|x6 [|x7 r]]]]]]]]; cbn; do 2 eexists; reflexivity. }
+  destruct Hc as (a & b & Hc).
+  assert (Hlc : lenN chunk = 8) by apply length_fit.
+  exists chunk. split; [reflexivity|]. split; [exact Hlc|]. split; [rewrite Hlc; reflexivity|].
+  intro later. rewrite Hc. unfold show_one, accept. rewrite Hf. cbn. split; [left; reflexivity|reflexivity].
+Qed.
+
+(* ------------------------------------------------------------------ a whole call *)
+(* the arguments the per-argument theorems cover *)
+Inductive covered (inp : inputs) : spec -> aval -> Prop :=
+| cov_int : forall s w, arg_word inp s = Some w ->
+    (int_fmt (s_fmt s) /\ (s_size s = 1 \/ s_size s = 2 \/ s_size s = 4 \/ s_size s = 8) /\ ~ neg32_class s w) \/
+    (s_fmt s = FChar /\ (s_size s = 1 \/ s_size s = 2 \/ s_size s = 4 \/ s_size s = 8)) ->
+    covered inp s (AInt w)
+| cov_str : forall s p c, s_fmt s = FStr -> s_size s = 8 -> arg_word inp s = Some p -> p < 2 ^ 64 -> p <> 0 ->
+    assoc p (strs inp) = Some c -> nz c -> c <> [255; 255; 255; 255] -> covered inp s (AStr c)
+| cov_bad : forall s p, s_fmt s = FStr -> s_size s = 8 -> arg_word inp s = Some p -> p < 2 ^ 64 -> p <> 0 ->
+    readable inp p = false -> covered inp s (ABad p)
+| cov_null : forall s, s_fmt s = FStr -> s_size s = 8 -> arg_word inp s = Some 0 -> covered inp s ANull.
+
+Lemma covered_shape : forall inp s a, covered inp s a -> no_struct s /\ s_size s <= 12.
+Proof.
+  intros inp s a H. unfold no_struct. destruct H as [s w _ Hk | s p c Hf Hs | s p Hf Hs | s Hf Hs].
+  - destruct Hk as [([-> | [-> | [-> | [-> | ->]]]] & Hs & _) | (-> & Hs)]; split; try reflexivity; lia.
+  - rewrite Hf, Hs. split; [reflexivity|lia].
+  - rewrite Hf, Hs. split; [reflexivity|lia].
+  - rewrite Hf, Hs. split; [reflexivity|lia].
+Qed.
+
+Lemma step_keeps : forall fill inp st s,
+  is_arg s -> m_stop st = false -> lenN (m_val st) = VAL_SIZE -> no_struct s -> s_size s <= 12 ->
+  m_total (step fill inp false st s) <= MAX_SIZE ->
+  m_stop (step fill inp false st s) = false /\ lenN (m_val (step fill inp false st s)) = VAL_SIZE.
+Proof.
+  intros fill inp st s Ha Hst Hval Hns Hsz. unfold step. rewrite Hst. unfold is_arg in Ha. rewrite Ha.
+  unfold no_struct in Hns. rewrite Hns. cbn [Bool.eqb negb andb].
+  pose proof (get_arg_len inp s (m_val st) Hval Hsz) as Hg.
+  destruct (is_strfmt (s_fmt s)).
+  - destruct (MAX_SIZE <? m_total st + 4) eqn:E4; [cbn [refuse m_total]; lia|].
+    match goal with |- context [if ?p =? 0 then _ else _] => destruct (p =? 0) end.
+    + destruct (MAX_SIZE <? m_total st + ALIGN (4 + 2) 4) eqn:E8; [cbn [refuse m_total]; lia|].
+      intros _. split; [reflexivity|exact Hg].
+    + match goal with |- context [copy_loop ?a ?b ?c ?d ?e] => destruct (copy_loop a b c d e) as [dst len] end.
+      intros _. split; [reflexivity|exact Hg].
+  - destruct (MAX_SIZE <? m_total st + ALIGN (s_size s) 4) eqn:E8; [cbn [refuse m_total]; lia|].
+    intros _. split; [reflexivity|exact Hg].
+Qed.
+
+(* the per-argument theorems in one statement *)
+Lemma arg_roundtrip : forall syms fill inp st s a,
+  covered inp s a -> is_arg s -> m_stop st = false -> lenN (m_val st) = VAL_SIZE ->
+  m_total st + need s a <= MAX_SIZE ->
+  exists chunk,
+    m_done (step fill inp false st s) = m_done st ++ chunk /\
+    lenN chunk = need s a /\
+    m_total (step fill inp false st s) = m_total st + lenN chunk /\
+    forall later, In (fst (show_one syms s (chunk ++ later))) (accept s a) /\
+                  snd (show_one syms s (chunk ++ later)) = lenN chunk.
+Proof.
+  intros syms fill inp st s a Hc Ha Hst Hval Hroom.
+  destruct Hc as [s w Hw Hk | s p c Hf Hs Hw Hp Hp0 Has Hnz Hff | s p Hf Hs Hw Hp Hp0 Hr | s Hf Hs Hw].
+  - apply int_arg_roundtrip; assumption.
+  - eapply str_arg_roundtrip; eassumption.
+  - eapply bad_ptr_arg_roundtrip; eassumption.
+  - eapply null_arg_roundtrip; eassumption.
+Qed.
+
+Lemma anyb_In : forall {A} (f : A -> bool) l x, In x l -> f x = true -> anyb f l = true.
+Proof.
+  induction l as [|a r IH]; intros x Hin Hf; [destruct Hin|].
+  cbn [anyb]. destruct (f a) eqn:E; [reflexivity|].
+  destruct Hin as [-> | Hin]; [congruence|]. eapply IH; eassumption.
+Qed.
+
+Lemma prefixb_app : forall p l, prefixb p (p ++ l) = true.
+Proof. induction p; intro l; [reflexivity|]. cbn. rewrite N.eqb_refl, IHp. reflexivity. Qed.
+
+Definition need_sum (l : list (spec * aval)) : N := fold_right (fun p acc => need (fst p) (snd p) + acc) 0 l.
+
+Lemma fits_need_sum : forall l, fits l = (need_sum l <=? MAX_SIZE).
+Proof.
+  intro l. unfold fits. f_equal.
+  assert (G : forall acc, fold_left (fun acc p => acc + need (fst p) (snd p)) l acc = acc + need_sum l).
+  { induction l as [|p r IH]; intro acc; cbn [fold_left need_sum fold_right]; [lia|]. rewrite IH. unfold need_sum. lia. }
+  rewrite G. lia.
+Qed.
+
+Lemma call_roundtrip_gen : forall syms fill inp l st first later,
+  Forall (fun p => is_arg (fst p) /\ covered inp (fst p) (snd p)) l ->
+  m_stop st = false -> lenN (m_val st) = VAL_SIZE ->
+  m_total st + need_sum l <= MAX_SIZE ->
+  let st' := fold_left (step fill inp false) (map fst l) st in
+  exists tail,
+    m_done st' = m_done st ++ tail /\
+    m_total st' = m_total st + lenN tail /\
+    lenN tail = need_sum l /\
+    match_vals l (show_loop syms false (map fst l) (tail ++ later) first) first = true.
+Proof.
+  induction l as [|[s a] r IH]; intros st first later Hall Hst Hval Hroom; cbv zeta.
+  - exists []. cbn. rewrite app_nil_r. repeat split; lia.
+  - inversion Hall as [|? ? (Ha & Hc) Hr]; subst.
+    cbn [map fold_left need_sum fold_right] in *. cbn [fst snd] in *. fold (need_sum r) in *.
+    destruct (arg_roundtrip syms fill inp st s a Hc Ha Hst Hval ltac:(lia)) as (chunk & Hd & Hl & Ht & Hshow).
+    destruct (covered_shape inp s a Hc) as (Hns & Hsz).
+    destruct (step_keeps fill inp st s Ha Hst Hval Hns Hsz ltac:(lia)) as (Hst' & Hval').
+    destruct (IH (step fill inp false st s) false later Hr Hst' Hval' ltac:(lia)) as (tail & Hd2 & Ht2 & Hl2 & Hm).
+    exists (chunk ++ tail).
+    split; [rewrite Hd2, Hd, app_assoc; reflexivity|].
+    split; [rewrite Ht2, Ht, lenN_app; lia|].
+    split; [rewrite lenN_app; lia|].
+    cbn [show_loop]. unfold is_arg in Ha. rewrite Ha. cbn [Bool.eqb negb].
+    rewrite <- app_assoc.
+    destruct (Hshow (tail ++ later)) as (Hin & Hadv).
+    destruct (show_one syms s (chunk ++ tail ++ later)) as [txt adv] eqn:Eso. cbn [fst snd] in *. subst adv.
+    rewrite dropN_app_exact by reflexivity.
+    cbn [match_vals].
+    set (rest := show_loop syms false (map fst r) (tail ++ later) false) in *.
+    assert (Hcore : anyb (fun c => if prefixb c (txt ++ rest) then match_vals r (skipn (length c) (txt ++ rest)) false else false)
+                         (accept s a) = true).
+    { apply anyb_In with (x := txt); [exact Hin|].
+      rewrite prefixb_app. rewrite skipn_app, skipn_all, Nat.sub_diag. cbn [skipn app]. exact Hm. }
+    destruct first.
+    + cbn [app]. exact Hcore.
+    + assert (Hp : prefixb comma (comma ++ txt ++ rest) = true) by apply prefixb_app.
+      rewrite Hp. cbn [comma app skipn]. exact Hcore.
+Qed.
+
+Lemma strip_paren_wrap : forall t, strip_paren ([40] ++ t ++ [41]) = Some t.
+Proof. intro t. cbn [app strip_paren]. rewrite rev_app_distr. cbn [rev app]. rewrite rev_involutive. reflexivity. Qed.
+
+(* C09 roundtrip: for every call whose arguments are integers / characters of any size and format, readable
+   strings of any length and content, unreadable or NULL string pointers - in registers or on the stack, by
+   index, %reg or %stack, in any number and order - if the values fit the buffer then the text `uftrace replay`
+   prints for the bytes libmcount recorded is accepted by the property checker against the values passed. *)
+Theorem call_roundtrip : forall syms fill inp l,
+  l <> [] ->
+  Forall (fun p => is_arg (fst p) /\ covered inp (fst p) (snd p)) l ->
+  fits l = true ->
+  ok_args l (show_args syms (map fst l) (payload (run fill inp false (map fst l)))) = true.
+Proof.
+  intros syms fill inp l Hne Hall Hfits.
+  rewrite fits_need_sum in Hfits.
+  destruct (call_roundtrip_gen syms fill inp l mst0 true [] Hall eq_refl eq_refl ltac:(cbn [m_total mst0]; lia))
+    as (tail & Hd & Ht & Hl & Hm).
+  cbn [m_done m_total mst0 app] in Hd, Ht. rewrite N.add_0_l in Ht.
+  unfold run, payload, result. rewrite Ht.
+  destruct (MAX_SIZE <? lenN tail) eqn:E; [lia|].
+  rewrite Hd. rewrite <- (app_nil_r tail) at 2. rewrite takeN_app_exact by reflexivity.
+  unfold show_args, ok_args.
+  destruct l as [|x l']; [congruence|].
+  destruct (has_float (x :: l')); [reflexivity|].
+  rewrite fits_need_sum. assert (need_sum (x :: l') <=? MAX_SIZE = true) as -> by lia.
+  rewrite strip_paren_wrap. rewrite app_nil_r in Hm. exact Hm.
+Qed.
+
+(* non-vacuity of call_roundtrip's hypotheses: f(-5, "hi", <unreadable>, NULL) *)
+Definition ex_inp : inputs :=
+  {| regs := [0x12345678fffffffb; 4096; 8192; 0; 0; 0]; xmm := []; stk := []; rets := [];
+     strs := [(4096, [104; 105])]; wrds := [] |}.
+Definition ex_call : list (spec * aval) :=
+  [(Sp 1 FSint 4 TIndex 0, AInt 0x12345678fffffffb); (Sp 2 FStr 8 TIndex 0, AStr [104; 105]);
+   (Sp 3 FStr 8 TIndex 0, ABad 8192); (Sp 4 FStr 8 TIndex 0, ANull)].
+Lemma ex_call_covered :
+  ex_call <> [] /\ Forall (fun p => is_arg (fst p) /\ covered ex_inp (fst p) (snd p)) ex_call /\ fits ex_call = true.
+Proof.
+  split; [discriminate|]. split; [|reflexivity].
+  unfold ex_call.
+  constructor; [split; [reflexivity|]|constructor; [split; [reflexivity|]|constructor; [split; [reflexivity|]|
+    constructor; [split; [reflexivity|]|constructor]]]]; cbn [fst snd].
+  - apply cov_int; [reflexivity|]. left. split; [right; left; reflexivity|]. split; [tauto|].
+    intros (H & _). discriminate H.
+  - eapply cov_str with (p := 4096); try reflexivity; try lia.
+    + constructor; [lia|]. constructor; [lia|constructor].
+    + discriminate.
+  - apply cov_bad; try reflexivity; lia.
+  - apply cov_null; reflexivity.
+Qed.
+Lemma ex_call_shown :
+  show_args [] (map fst ex_call) (payload (run 0 ex_inp false (map fst ex_call))) =
+  [40; 45; 53; 44; 32; 34; 104; 105; 34; 44; 32; 34; 60; 48; 120; 50; 48; 48; 48; 62; 34; 44; 32; 34; 78; 85; 76; 76; 34; 41].
+  (* (-5, "hi", "<0x2000>", "NULL") *)
+Proof. vm_compute. reflexivity. Qed.
